@@ -25,7 +25,7 @@ var ghostKinds = map[string]string{
 	"synced": "bool", "created": "bool", "locked": "bool",
 	"first": "uint64", "last": "uint64", "nstored": "int", "ncalls": "int",
 	"persistedID": "uint64", "commits": "int",
-	"data": "bytes", "codecID": "uint64",
+	"data": "bytes", "codecID": "uint64", "ctxerr": "error",
 }
 
 // ghostGlobal returns the value of a ghost global integer (names g_*).
@@ -58,6 +58,8 @@ func (e *Exec) ghostGet(st *State, obj *Object, name string) Value {
 		return VInt{T: t, Signed: true}
 	case "uint64":
 		return VInt{T: e.declare(key, BV64), Signed: false}
+	case "error":
+		return VErr{e.declare(key, BV32)}
 	case "bytes":
 		// ghost byte sequence (e.g. file contents): a region whose length is
 		// the ghost field `size` of the same object
